@@ -105,3 +105,15 @@ def probes(case, layers, view, img):
         if 1 in gt.values():
             p["vmdk.zero_grain"] = 1
     return p
+
+
+def req_meta_bytes(cfg, img, off, ln):
+    if cfg["kind"] == "flat":
+        return 0
+    cover = cfg["grain"] * cfg["gtes"] * 512
+    tables = ln // cover + 2
+    esz = 8 if cfg["kind"] == "sesparse" else 4
+    extra = 0
+    if cfg["kind"] == "stream":  # compressed grains are read whole (plus their marker sector)
+        extra = (ln // (cfg["grain"] * 512) + 2) * (cfg["grain"] * 512 + 1024)
+    return tables * cfg["gtes"] * esz + extra
